@@ -294,6 +294,10 @@ func (e *Engine) callFn(st *State, x *ssa.Call, fn *ssa.Function, bind []Value, 
 		case "vpBlockedOK":
 			st.syncInt["blockedOK"] = 1
 			return true
+		case "vpForbidden":
+			msg, _ := strConcrete(args[0].(*StrV))
+			e.violation(st, "FORBIDDEN", "output through "+msg+" at "+e.pos(x.Pos()))
+			return false
 		case "vpSetClock":
 			st.syncInt["clock"] = e.mustInt(st, args[0], "clock mode")
 			return true
@@ -350,20 +354,36 @@ func (e *Engine) callFn(st *State, x *ssa.Call, fn *ssa.Function, bind []Value, 
 		return true
 	}
 
+	// 3a. library models written in harness Go take precedence over the engine's own models:
+	// vpModel_<pkg>_<Func> for package functions, vpModelM_<pkg>_<Type>_<Method> for methods
+	// (same signature, receiver first). Natively the real library code runs.
+	if fn.Pkg != nil && fn.Pkg != e.pkg {
+		rep := strings.NewReplacer("/", "_", ".", "_")
+		mn := ""
+		if recv := fn.Signature.Recv(); recv == nil {
+			mn = "vpModel_" + rep.Replace(fn.Pkg.Pkg.Path()) + "_" + short
+		} else {
+			rt := recv.Type()
+			if pt, ok := rt.(*types.Pointer); ok {
+				rt = pt.Elem()
+			}
+			if nt, ok := rt.(*types.Named); ok {
+				mn = "vpModelM_" + rep.Replace(fn.Pkg.Pkg.Path()) + "_" + nt.Obj().Name() + "_" + short
+			}
+		}
+		if mn != "" {
+			if target := e.pkg.Func(mn); target != nil {
+				e.ModelsUsed[name+" (harness Go model "+mn+")"] = true
+				e.enter(st, target, args, nil, xv)
+				return true
+			}
+		}
+	}
+
 	// 3. models
 	if m, ok := models[name]; ok {
 		e.ModelsUsed[name] = true
 		return m(e, st, x, args)
-	}
-	// 3b. library models written in harness Go: vpModel_<pkg>_<Func> (same signature). Natively
-	// the real library function runs.
-	if fn.Pkg != nil && fn.Pkg != e.pkg && fn.Signature.Recv() == nil {
-		mn := "vpModel_" + strings.NewReplacer("/", "_", ".", "_").Replace(fn.Pkg.Pkg.Path()) + "_" + short
-		if target := e.pkg.Func(mn); target != nil {
-			e.ModelsUsed[name+" (harness Go model "+mn+")"] = true
-			e.enter(st, target, args, nil, xv)
-			return true
-		}
 	}
 	if fn.Pkg != e.pkg && short == "init" && len(args) == 0 {
 		return true // foreign package initialisers are not run (§2.2)
